@@ -18,7 +18,10 @@ RULE = ('Hypothesis documents (profile "full" with extra split/join weight, up t
         'selection is also exported with an Exporter that exported other documents before, with an ExportOptions object '
         'that was used for narrower documents before, and (every seventh) through kernpy.dump to a file: same text.  An '
         'evaluation is one (document, selection); non-trivial when a split spine is among the deleted or the kept ones '
-        'and at least one row disappears or the selection is a proper non-empty subset.')
+        'and at least one row disappears or the selection is a proper non-empty subset.'
+        '  The repository\'s own sample scores (test/resource_dir, >= 2 spines) add a model-free clause: every drawn selection of spine ids, and '
+        'the **kern type, alone and together with an encoding / a category selection, equals the column projection of kernpy\'s export made '
+        'without the selection (columns from the text-level spine tracker kv/humdrum.py columns).')
 ASSUMPTIONS = ['kv/spine.py column tracking (see C02)', 'the full export is aligned with the abstract document (C03)']
 
 
@@ -131,9 +134,64 @@ def check(case):
     return r
 
 
+def check_real(case):
+    """a sample score of the repository: every drawn selection of spine ids / types, alone and together with a category
+    selection and an encoding, is the column projection of kernpy's own export made WITHOUT the spine selection (columns
+    from a text-level spine tracker over that export): projection commutes with the other options"""
+    from .. import humdrum as H, realscores as RS
+    try:
+        kdoc, errs = kp.load(RS.path(case['real']))
+    except Exception:  # noqa
+        return Result(classes=['real-score-not-importable'])
+    if errs:
+        return Result(classes=['real-score-with-import-errors'])
+    types = kp.spine_types(kdoc)
+    n = len(types)
+    if n < 2:
+        return Result(classes=['real-score-single-spine'])
+    TC = kp.TokenCategory
+    others = [({}, 'default'), ({'encoding': kp.Encoding.eKern}, 'ekern'),
+              ({'exclude': [TC.DECORATION, TC.SIGNATURES]}, 'filtered'), ({'encoding': kp.Encoding.bEkern, 'exclude': [TC.BARLINES]}, 'bekern-filtered')]
+    sels = []
+    for x, w in case['raw']:
+        ids = sorted({(x >> (3 * j)) % n for j in range(1 + w)})
+        sels.append(ids)
+    sels += [[0], [n - 1], list(range(n)), []]
+    evals = 0
+    for okw, tag in others[:2 + (case['raw'][0][0] % 3)]:
+        base = K.dumps(kdoc, what=f'{case["real"]} {tag}', **okw)
+        rows, err = H.columns(base)
+        if err:
+            return Result(classes=['real-score-outside-the-validator'])
+        if len(rows[0][1]) != n:
+            return Result(classes=['real-score-with-spines-outside-the-default-export'])
+        for ids in sels:
+            got = K.dumps(kdoc, what=f'{case["real"]} {tag} spine_ids={ids}', spine_ids=list(ids), **okw)
+            evals += 1
+            exp = H.project(rows, set(ids))
+            if got != exp:
+                dl = next(((x, y) for x, y in zip(got.split('\n'), exp.split('\n')) if x != y), (got[-80:], exp[-80:]))
+                raise Bad('projection', f'{case["real"]} [{tag}] spine_ids={ids}: differs from the projection of the export made without spine_ids; first difference {dl}')
+        kern_ids = {k for k, t in enumerate(types) if t == '**kern'}
+        got = K.dumps(kdoc, spine_types=['**kern'], **okw)
+        evals += 1
+        if got != H.project(rows, kern_ids):
+            raise Bad('projection', f'{case["real"]} [{tag}] spine_types=[\'**kern\']: differs from the projection of the export made without spine_types')
+    if kp.spine_types(kdoc, ['**kern']) != [t for t in types if t == '**kern']:
+        raise Bad('spine-types-query', f'{case["real"]}: spine_types(doc, [\'**kern\']) = {kp.spine_types(kdoc, ["**kern"])}')
+    return Result(nontrivial=True, evals=evals, classes=['real-score', f'spines={min(n, 5)}'], sample={'file': case['real'], 'selections': sels[:3]},
+                  key=['real', case['real'], case['raw']])
+
+
 def run(ctx):
+    from .. import realscores as RS
+    rc = RS.cases(max_bytes=20000, nranges=3)
+    if rc is not None:
+        ctx.run_hypothesis(rc, check_real, max_examples=max(3, (20 if ctx.quick else 400) // getattr(ctx, 'nshards', 1)), salt=9, label='real-scores')
     ctx.run_hypothesis(cases(), check, max_examples=90 if ctx.quick else 1500, label='projection')
 
 
 def replay(case):
+    if 'real' in case:
+        return check_real(case)
     return check(case)
